@@ -393,6 +393,12 @@ def run_conversions(R):
         "int8 per-element": specs.BoundedArray((2,), np.int8, [-3, 0], [0, 7], "i8"),
         "uniform bounds (control)": specs.BoundedArray((2, 2), np.int32, -1, 4, "u"),
         "multi-discrete": specs.MultiDiscreteArray(np.array([2, 5, 3], np.int32), name="md"),
+        "multi-discrete int8": specs.MultiDiscreteArray(np.array([2, 5], np.int8), dtype=np.int8, name="md8"),
+        "discrete int8": specs.DiscreteArray(4, dtype=np.int8, name="d8"),
+        "discrete uint8": specs.DiscreteArray(3, dtype=np.uint8, name="du8"),
+        "discrete int16": specs.DiscreteArray(5, dtype=np.int16, name="d16"),
+        "unbounded float16 array": specs.Array((2,), np.float16, "h"),
+        "bool bounded": specs.BoundedArray((2,), bool, False, True, "b"),
     }
     R.bound(specs=list(synth))
     for label, sp in synth.items():
@@ -400,7 +406,43 @@ def run_conversions(R):
             observation_spec = specs.Spec(Obs2, "O", u=sp, v=specs.DiscreteArray(4, name="v"))
             action_spec = sp
         C15.run_spaces(R, "synthetic: " + label, env=E_)
-        if not isinstance(sp, specs.BoundedArray) or isinstance(sp, specs.MultiDiscreteArray):
+        # generate_value() of the spec is a member of the spec and of both converted specs
+        try:
+            gv = sp.generate_value()
+            sp.validate(gv)
+            ok_g = bool(specs.jumanji_specs_to_gym_spaces(sp).contains(np.asarray(gv)))
+            specs.jumanji_specs_to_dm_env_specs(sp).validate(np.asarray(gv))
+            R.structural(f"{label}: generate_value() validates and belongs to the converted gym space and dm_env spec", ok_g, {"spec": label, "value": np.asarray(gv).tolist()})
+        except Exception as e:  # noqa
+            R.structural(f"{label}: generate_value() validates and belongs to the converted gym space and dm_env spec", False, {"spec": label, "error": f"{type(e).__name__}: {str(e)[:160]}"})
+        # values whose dtype, ONCE CONVERTED TO A JAX ARRAY, is not the declared one are rejected whatever their value (numpy arrays and
+        # scalars of another dtype, Python floats for integer specs, Python ints for float specs), and so are wrong shapes
+        wrong = []
+        good = np.asarray(sp.generate_value())
+        for other in (np.int8, np.int16, np.int32, np.uint8, np.float16, np.float32, bool):
+            if np.dtype(other) == np.dtype(sp.dtype):
+                continue
+            for val in (good.astype(other), (good.astype(np.float64) + 300).astype(other) if np.dtype(other).kind != "b" else good.astype(other)):
+                try:
+                    sp.validate(val)
+                    wrong.append(f"numpy {np.dtype(other).name} value {np.asarray(val).reshape(-1)[:2].tolist()} accepted by a {np.dtype(sp.dtype).name} spec")
+                except ValueError:
+                    pass
+        py = (good.astype(np.float64) + 0.5).tolist() if np.dtype(sp.dtype).kind in "iub" else [int(x) for x in good.reshape(-1)][:1] and np.asarray(good, dtype=np.int64).tolist()
+        try:
+            sp.validate(py)
+            wrong.append(f"Python value {str(py)[:40]} (converts to another dtype than {np.dtype(sp.dtype).name}) accepted")
+        except ValueError:
+            pass
+        if good.ndim >= 1:
+            try:
+                sp.validate(real_jnp.asarray(good.reshape(-1)[:1]) if good.size > 1 else real_jnp.asarray(good)[None])
+                wrong.append("wrong shape accepted")
+            except ValueError:
+                pass
+        R.validated += 16
+        R.structural(f"{label}: values of another dtype (numpy arrays/scalars, Python numbers) or shape are rejected by validate", not wrong, {"spec": label, "accepted": wrong[:4]})
+        if not isinstance(sp, specs.BoundedArray) or isinstance(sp, specs.MultiDiscreteArray) or np.dtype(sp.dtype).kind == "b" or isinstance(sp, specs.DiscreteArray):
             continue
         space = specs.jumanji_specs_to_gym_spaces(sp)
         dspec = specs.jumanji_specs_to_dm_env_specs(sp)
@@ -444,6 +486,28 @@ def run_conversions(R):
         "Array": (lambda **k: specs.Array(**{**dict(shape=(2, 2), dtype=np.float32, name="a"), **k}),
                   {"shape": dict(shape=(4,)), "dtype": dict(dtype=np.float16), "name": dict(name="b")}),
     }
+    # BoundedArray equality separates bounds that differ MINIMALLY (by 1 at every integer magnitude, by one ulp for floats): the property
+    # probes "values at, just inside and just outside each bound for every dtype"; an approximate comparison of the bounds would pass
+    # every coarse example
+    near = []
+    for dt, pairs in ((np.int32, [(0, 1), (100, 101), (100000, 100001), (2 ** 31 - 2, 2 ** 31 - 1), (-2 ** 31, -2 ** 31 + 1)]),
+                      (np.int8, [(0, 1), (126, 127), (-128, -127)]), (np.uint8, [(0, 1), (254, 255)]),
+                      (np.float32, [(0.0, 1e-9), (1.0, float(np.nextafter(np.float32(1.0), np.float32(2.0)))), (1e6, float(np.nextafter(np.float32(1e6), np.float32(2e6)))), (-1e-30, 0.0)]),
+                      (np.float16, [(1.0, float(np.nextafter(np.float16(1.0), np.float16(2.0)))), (0.0, 6e-8)])):
+        for a_, b_ in pairs:
+            for which in ("minimum", "maximum"):
+                lo_, hi_ = (np.array(a_, dt), np.array(b_, dt)) if which == "maximum" else (np.array(a_, dt), np.array(b_, dt))
+                if which == "maximum":
+                    s1, s2 = specs.BoundedArray((), dt, np.array(a_, dt) if dt != np.uint8 else 0, np.array(a_, dt), "n"), specs.BoundedArray((), dt, np.array(a_, dt) if dt != np.uint8 else 0, np.array(b_, dt), "n")
+                else:
+                    s1, s2 = specs.BoundedArray((), dt, np.array(a_, dt), np.array(b_, dt), "n"), specs.BoundedArray((), dt, np.array(b_, dt), np.array(b_, dt), "n")
+                try:
+                    if bool(s1 == s2) or bool(s2 == s1):
+                        near.append(f"{np.dtype(dt).name}: {which} {a_!r} vs {b_!r} compare equal")
+                except Exception as e:  # noqa
+                    near.append(f"{np.dtype(dt).name}: {which} {a_!r} vs {b_!r}: {type(e).__name__}")
+                R.validated += 1
+    R.structural("BoundedArray == separates bounds that differ by 1 (every integer magnitude) or by one ulp (floats), in both orders", not near, {"not_distinguished": near[:6]})
     for kind, (mk, diffs) in variants.items():
         base_ = mk()
         bad = []
